@@ -18,14 +18,23 @@ RowLevel(a) == a \in {"cell_height", "cell_justification"}
 
 \* ---- derived ----
 HasGroupCol(x) == x.strat # "plain"
-\* original column count and the original index (0-based) of displayed column j (0-based)
-NOrig(x) == x.m + (IF HasGroupCol(x) THEN 1 ELSE 0)
+NGroup(x) == CASE x.strat = "plain" -> 0 [] x.strat \in {"pb2span", "subpb"} -> 2 [] OTHER -> 1
+NOrig(x) == x.m + NGroup(x)
+\* original (0-based) positions of the group columns: the first is inserted before data column
+\* GroupPos, the second directly after it ("adjacent") or one data column further ("apart")
 GroupPos(x) == CASE x.gpos = "first" -> 0 [] x.gpos = "last" -> x.m [] OTHER -> IF x.m \div 2 = 0 THEN 1 ELSE x.m \div 2
-Removed(x) == x.strat \in {"pbspan", "pbnp", "subline"}    \* the group column is not displayed ("pbcol" keeps it)
-OrigCol(x, j) == IF HasGroupCol(x) /\ Removed(x) /\ j >= GroupPos(x) THEN j + 1 ELSE j
-NDisp(x) == IF HasGroupCol(x) /\ Removed(x) THEN x.m ELSE NOrig(x)
+Min2(a, b) == IF a < b THEN a ELSE b
+GroupIdx(x) == IF NGroup(x) = 0 THEN {}
+               ELSE IF NGroup(x) = 1 THEN {GroupPos(x)}
+               ELSE {GroupPos(x), Min2(GroupPos(x) + (IF x.g2 = "apart" THEN 2 ELSE 1), NOrig(x) - 1)}
+Removed(x) == x.strat \in {"pbspan", "pbnp", "subline", "pb2span", "subpb"}    \* group columns not displayed ("pbcol" keeps its column)
+RemovedIdx(x) == IF Removed(x) THEN GroupIdx(x) ELSE {}
+Kept(x) == (0..(NOrig(x) - 1)) \ RemovedIdx(x)
+\* original index of displayed column j (0-based): the (j+1)-th kept column
+OrigCol(x, j) == CHOOSE c \in Kept(x) : Cardinality({y \in Kept(x) : y < c}) = j
+NDisp(x) == Cardinality(Kept(x))
 \* page start (1-based row) of row rr
-Breaks(x) == x.strat \in {"pbnp", "subline", "pbcol"}
+Breaks(x) == x.strat \in {"pbnp", "subline", "pbcol", "subpb"}
 PageStart(x, rr) ==
   IF x.strat = "plain" THEN ((rr - 1) \div x.cap) * x.cap + 1
   ELSE IF Breaks(x) THEN (LET S == {j \in 1..rr : x.grp[j]} IN CHOOSE j \in S : \A y \in S : y <= j)
